@@ -68,6 +68,31 @@ PROPS["C09"] = {
     "assumptions": ["fairness: a registered waker leads to a re-poll", "drop timing"],
 }
 
+PROPS["C10"] = {
+    "technique": "Verus contracts: running-size loop of decode_stateless against spec_section_size, encode_stateless' returned size, and the send/receive comparison sites over the transport's ghost log",
+    "text": "Unbounded deductive proof: Ok(d) from decode_stateless implies d.mem_size == Σ(|name|+|value|+32) <= max and HeaderTooLong(n) is answered exactly when the running size first exceeds max (so size == limit is accepted, limit+1 refused, for every limit incl. 0 and 2^62-1); no u64 overflow for inputs < 2^50 bytes; encode_stateless returns that size; at the three send sites at most one HEADERS frame reaches the stream's ghost log and only if the size is <= the peer's advertised limit (2^62-1 while the peer's SETTINGS have not arrived), otherwise HeaderTooBig and nothing is handed over; an oversized request yields HeaderTooBig after exactly one 431 attempt through the same limit check and no connection error.",
+    "note": "prefix_int/prefix_string/static table by their contracts (Kani C15/C11 harnesses); OnceLock by prophecy; await-erasure (R4); http builders; the receive sites recv_response / poll_recv_trailers carry their size clauses in unit error_scope ([C07.toobig*]).",
+    "design_ref": "§4 C10",
+    "trusted_base": COMMON_TB + ["inc/qpack_spec.rs (RFC 9204 / RFC 9114 §4.2.2 spec functions and 45 lemmas)", "axioms: Huffman round trip / 5-bit shortest code (C15), static entries <= 100 bytes, Cow deref", "callee contracts ASSUMED-FROM-UNIT (kani c15_*, c11_static_*, error_scope, headers)"],
+    "assumptions": ["input field sections shorter than 2^50 bytes", "usize is 64 bits"],
+}
+PROPS["C11"] = {
+    "technique": "Verus contracts: field-line codecs, HeaderPrefix, decode_stateless/encode_stateless against an RFC 9204 §4.5 spec function; Kani for the static table (vs. an independent App. A transcription) and the first-byte dispatch",
+    "text": "Unbounded deductive proof that decode_stateless(s,max) agrees with spec_field_section(s,max) (accepted ⇔ valid RFC 9204 encoding with static/literal lines only, Required Insert Count 0, S = 0, and the decoded list is the spec's, in order; every rejected class is an Err) and that what encode_stateless writes decodes, by the spec, to exactly the input list; each codec consumes/writes exactly its octets. The static table is checked entry by entry against an independent transcription of RFC 9204 Appendix A (Kani, complete for the finite table), the dispatcher over all 256 first bytes.",
+    "note": "String/integer codecs by their contracts (C15 Kani harnesses; prefix_string::encode's string-level contract is assumed — per-symbol tables and bit kernels are proved, no whole-string encode harness); Huffman round-trip axiom on the spec side; SPEC_STATIC_TABLE transcribed by hand (0 mismatches with the repository).",
+    "design_ref": "§4 C11",
+    "trusted_base": COMMON_TB + ["inc/qpack_spec.rs", "kani/_spec.rs SPEC_STATIC_TABLE (hand transcription of RFC 9204 App. A)", "axiom_huff, axiom_huff_len, axiom_static, axiom_pint_max_cont"],
+    "assumptions": ["input shorter than 2^50 bytes", "prefix_string::encode appends spec_string_enc (assumed at string level)"],
+}
+PROPS["C13"] = {
+    "technique": "Kani full-domain harnesses for config -> SETTINGS bytes, Settings::{insert,encode}, SettingId predicates; Verus loop proof for Settings::decode against spec_settings_verdict",
+    "text": "Settings::decode is proved (Verus, unbounded) to read a whole number of (varint,varint) pairs to the end of the payload, store exactly the understood pairs in order with pairwise distinct ids, ignore unknown ids however many, and answer Malformed / InvalidSettingId / Repeated exactly for truncated / HTTP/2-reserved / repeated ids (Exceeded is unreachable by a pigeonhole lemma). The sending side is proved by Kani over every Config value: conversion and encode never panic, emit exactly the configured values, no id twice, no reserved id, a well-formed grease id, within the 64-byte write buffer.",
+    "note": "insert's contract from Kani (c13_insert_contract) is assumed in the Verus unit clause by clause; fastrand stubbed to any value in range; defaults-until-SETTINGS via the OnceLock prophecy in unit size_limit_sites ([C13.defaults]).",
+    "design_ref": "§4 C13",
+    "trusted_base": COMMON_TB + ["kani/_spec.rs spec_settings_* (RFC 9114 §7.2.4)", "fastrand::u64 returns a value in the requested range (stub)"],
+    "assumptions": ["usize is 64 bits"],
+}
+
 NOT_YET = "unit not built yet in this round (see DESIGN §8 order of work)"
 for _id in ["C01", "C02", "C03", "C04", "C05", "C06", "C07", "C08", "C09", "C10", "C11", "C12", "C13", "C14", "C15", "C17", "C18", "C19"]:
     PROPS.setdefault(_id, {"not_applicable": NOT_YET})
